@@ -27,7 +27,7 @@ build_harness() { # profile...
   return 0
 }
 
-needs_dbgchk() { case "$1" in C04|C08|C12|C13|C19|setup) return 0;; *) return 1;; esac; }
+needs_dbgchk() { case "$1" in C04|C08|C12|C13|C15|C19|setup) return 0;; *) return 1;; esac; }
 
 if [ $# -lt 1 ]; then echo "usage: $0 <ID> quick|thorough | <ID> --replay <file> | setup" >&2; exit 2; fi
 ID="$1"; shift
